@@ -166,24 +166,36 @@ def translate_params():
 HOSTS = ["a", "b", None]
 
 
-def gen_files(rng, n, vctr):
-    style = rng.choice(["none", "none", "tags", "tags", "mixed", "dedup_time"])
+REGIONS = ["eu", "us", None]
+
+
+def gen_files(rng, n, vctr, style=None):
+    """style "evolving": schema evolution of the tag set - the older files carry arc:tags=host,region and rows
+    that agree on (host, time) but differ in region, the NEWEST metadata-bearing file carries arc:tags=host only
+    (no region column).  The dedup key is (union of the inputs' tag columns, time)."""
+    style = style or rng.choice(["none", "none", "tags", "tags", "mixed", "dedup_time", "evolving", "evolving"])
     files = []
-    for _ in range(n):
+    for i in range(n):
+        evolving_old = style == "evolving" and i < n - 1 and rng.random() < 0.8
         rows = []
-        for _ in range(rng.randint(1, 3)):
+        for _ in range(rng.randint(2, 3) if evolving_old else rng.randint(1, 3)):
             if rows and rng.random() < 0.15:
                 rows.append(dict(rows[-1]))            # an exact duplicate row
                 continue
             vctr[0] += 1
-            has_x = None
-            rows.append({"host": rng.choice(HOSTS), "t": 1000 + rng.randint(0, 2), "v": vctr[0] if rng.random() < 0.8 else 7, "x": has_x})
+            rows.append({"host": rng.choice(HOSTS), "region": None, "t": 1000 + rng.randint(0, 2), "v": vctr[0] if rng.random() < 0.8 else 7, "x": None})
         hx = rng.random() < 0.3
         if hx:
             for r in rows:
                 r["x"] = rng.choice([None, 1, 2])
-        meta = style if style in ("none", "tags", "dedup_time") else rng.choice(["none", "tags"])
-        files.append({"rows": rows, "meta": meta, "has_x": hx})
+        if evolving_old:
+            # rows equal on the remaining tag and the timestamp, different in the tag the newest file lacks
+            for j, r in enumerate(rows):
+                r["host"], r["t"], r["region"] = rows[0]["host"], rows[0]["t"], REGIONS[j % 3]
+            files.append({"rows": rows, "meta": "tags2", "has_x": hx, "has_region": True})
+            continue
+        meta = {"none": "none", "tags": "tags", "dedup_time": "dedup_time", "evolving": "tags"}.get(style) or rng.choice(["none", "tags"])
+        files.append({"rows": rows, "meta": meta, "has_x": hx, "has_region": False})
     return files
 
 
@@ -242,6 +254,19 @@ def gen_cases(rng, npart, tier):
                 cyc.append(ocs)
             soon = [rng.random() < 0.25 for _ in cyc] + [False]
             cases.append(dict(base, cycles=cyc + [[]], soon=soon))
+    # schema evolution of the tag set: whole partitions compacted in one job (and a kill after the upload)
+    for _ in range(6 if tier == "quick" else 60):
+        n = rng.choice([3, 4, 5])
+        files = gen_files(rng, n, vctr, style="evolving")
+        for cyc in ([[]], [[("kill", 3)]], [[("crash", 4)]]):
+            cases.append({"min_files": 2, "max_batch": 10, "files": files, "cycles": cyc + [[]], "soon": [False] * (len(cyc) + 1)})
+    # the OLDEST file of the batch is not a Parquet file: the job skips it, its manifest does not list it
+    for _ in range(4 if tier == "quick" else 40):
+        n = rng.choice([4, 5, 6])
+        files = [{"rows": [], "meta": "none", "has_x": False, "has_region": False, "corrupt": True}] + gen_files(rng, n, vctr, style=rng.choice(["none", "tags"]))
+        for k in (3, 4, n + 2):
+            for kind in ("kill", "crash"):
+                cases.append({"min_files": 2, "max_batch": 10, "files": files, "cycles": [[(kind, k)], []], "soon": [False, False]})
     for i, c in enumerate(cases):
         c["id"] = i
     return cases
@@ -249,7 +274,7 @@ def gen_cases(rng, npart, tier):
 
 def witness_cases():
     """The refutation witness of C09_adaptive_retry_refuted and its in-guard twin."""
-    files = [{"rows": [{"host": "a", "t": 1000 + i, "v": i, "x": None}], "meta": "none", "has_x": False} for i in range(4)]
+    files = [{"rows": [{"host": "a", "region": None, "t": 1000 + i, "v": i, "x": None}], "meta": "none", "has_x": False} for i in range(4)]
     return [
         {"id": 900000, "min_files": 2, "max_batch": 10, "files": files, "cycles": [[("kill", 3)], []], "soon": [False, False], "witness": "C09_adaptive_retry_refuted"},
         {"id": 900001, "min_files": 2, "max_batch": 10, "files": files, "cycles": [[("crash", 3)], []], "soon": [False, False], "witness": "in-guard twin (whole-process crash)"},
@@ -301,7 +326,8 @@ class Interner:
         self.time_only = time_only
 
     def row(self, r):
-        key = json.dumps([r[1]] if self.time_only else [r[0], r[1]])
+        # observed rows are [host, region, time, v, x]; the key uses the UNION of the tag columns
+        key = json.dumps([r[2]] if self.time_only else [r[0], r[1], r[2]])
         val = json.dumps(r)
         if key not in self.k:
             self.k[key] = len(self.k) + 1
@@ -320,7 +346,7 @@ def coutcome(o):
 
 def case_to_coq(c, obs):
     metas = {f["meta"] for f in c["files"]}
-    it = Interner(time_only=("dedup_time" in metas and "tags" not in metas))
+    it = Interner(time_only=("dedup_time" in metas and "tags" not in metas and "tags2" not in metas))
     files = clist([cfile(it, f) for f in obs["start"]])
     cys = []
     for ocs, co in zip(c["cycles"], obs["cycles"]):
